@@ -79,7 +79,8 @@ func (p *Parser) parseHeader(data []byte) (header *parser.PacketHeader, buf []by
 			return
 		}
 
-		attachments, err := strconv.ParseUint(string(data[:i]), 10, 0)
+		// Bit size 31: the count must fit into a non-negative int.
+		attachments, err := strconv.ParseUint(string(data[:i]), 10, 31)
 		if err != nil {
 			return nil, nil, "", err
 		}
